@@ -81,7 +81,7 @@ pub fn small_var_set(rng: &mut Rng) -> VarSet {
         for _ in 0..rng.urange(1, 40) {
             let ref_len = 1 + rng.skewed(40) as usize;
             let end = if rng.chance(1, 4) { Some((p + ref_len - 1 + rng.skewed(1 << 22) as usize).min((1 << 29) - 1)) } else { None };
-            recs.push(VarRec { chrom: c, pos: p, id: format!("v{k}"), ref_len, alt: if end.is_some() { "<DEL>".into() } else { "T".into() }, end, svlen: None, pad: 0 });
+            recs.push(VarRec { chrom: c, pos: p, id: format!("v{k}"), ref_len, alt: if end.is_some() { "<DEL>".into() } else { "T".into() }, end, svlen: None, svlen_at: 0, len: None, pad: 0 });
             k += 1;
             p += rng.skewed(100_000) as usize;
             if p >= (1 << 29) - 100 {
@@ -90,7 +90,7 @@ pub fn small_var_set(rng: &mut Rng) -> VarSet {
         }
     }
     let flush_after = (0..recs.len()).map(|_| rng.chance(1, 3)).collect();
-    VarSet { minor, contigs, recs, flush_after, level: 1 }
+    VarSet { minor, contigs, recs, flush_after, level: 1, sample: false }
 }
 
 /// FASTA with the given names; returns the bytes written.
